@@ -7,7 +7,7 @@ clauses hold on what the real code did?).  Free-running executions (no controlle
 """
 import json, os, random, re, shutil, sys, time, concurrent.futures as cf
 sys.path.insert(0, os.path.dirname(os.path.abspath(__file__)))
-import vlib, pc
+import vlib, pc, fam
 
 SCN_FOR = {
     "C01": {"quick": ["A", "G", "J"], "thorough": ["A", "B", "D", "E", "F", "G", "J"]},
@@ -225,6 +225,94 @@ def run_scenario(prop, tier, scn, w, vh, rng_seed, stats, free=0):
     return out
 
 
+
+META_POINTS = ["meta.start.sleep", "meta.start.spawn", "meta.start.call", "meta.wake", "meta.spawn", "meta.begin", "meta.pick", "meta.sleep", "meta.recheck", "handling"]
+META_CLAUSES = {"C01": ["SerialHandlers", "SerialTerm", "AtMostOnce", "NoLoss"], "C05": ["TermOnce", "Final", "SerialTerm"]}
+
+
+def meta_scenarios(tier, rng):
+    sc = []
+    def S(**kw):
+        d = {"id": len(sc) + 1, "before": 1, "point": "", "nth": 1, "trig": 1, "during": [], "after": ["send"], "point2": "", "during2": []}
+        d.update(kw); sc.append(d)
+    S(); S(before=0, trig=3); S(after=["send", "fail", "send"])
+    durings = [["startret"], ["starterr"], ["send"], ["send", "send"], ["exit"], ["send", "exit"], ["send", "startret"], ["fail"], ["exit", "send"]]
+    afters = [["send"], ["send", "send", "quiet", "send"], ["startret", "send"], ["exit", "send"], ["fail", "send"]]
+    for pt in META_POINTS:
+        for nth in (1, 2):
+            for du in durings:
+                if tier == "quick" and rng.random() < 0.45:
+                    continue
+                S(point=pt, nth=nth, before=rng.choice([0, 1, 2]), trig=max(1, nth), during=du, after=rng.choice(afters))
+    # second preemption: the goroutine that gave the process back (meta.sleep) is parked again on its way through recheck / reacquire
+    for p2 in ("meta.recheck", "meta.reacquire", "meta.pick"):
+        for du in ([["send"], ["send", "send"]]):
+            for du2 in ([[], ["startret"], ["send"], ["exit"], ["send", "startret"]]):
+                S(point="meta.sleep", during=du, point2=p2, during2=du2, after=rng.choice(afters))
+    for pt in ("meta.pick", "handling"):
+        for du2 in ([["startret"], ["exit"], ["send"]]):
+            S(point=pt, during=["send"], point2="meta.sleep", during2=du2, after=rng.choice(afters))
+            S(point=pt, during=["fail", "send"], point2="meta.term", during2=du2, after=rng.choice(afters))
+    if tier == "thorough":
+        for _ in range(300):
+            S(point=rng.choice(META_POINTS), nth=rng.choice([1, 1, 2, 3]), before=rng.choice([0, 1, 2, 3]), trig=rng.choice([1, 2, 3]),
+              during=[rng.choice(["send", "send", "startret", "starterr", "exit", "fail"]) for _ in range(rng.randint(1, 3))],
+              point2=rng.choice(["", "", "meta.sleep", "meta.recheck", "meta.reacquire", "meta.pick", "meta.term"]),
+              during2=[rng.choice(["send", "startret", "exit"]) for _ in range(rng.randint(0, 2))],
+              after=[rng.choice(["send", "send", "startret", "exit", "fail", "quiet"]) for _ in range(rng.randint(1, 4))])
+    return sc
+
+
+def run_meta(prop, tier, w, vh, seed):
+    """meta-processes: MetaCore model-checked both ways, one/two-preemption scenarios on a real meta-process validated against MetaObs"""
+    rng = random.Random(seed * 31 + 5)
+    res = {"scenario": "META", "violations": [], "known": []}
+    st = tr = 0
+    for name, mayfail, mut, invs, expect in (("pinned", "TRUE", "FALSE", ["SlotsSuffice", "SerialHandlers", "TermOnce", "Final", "NoLostWakeup"], None),
+                                             ("p15", "TRUE", "FALSE", ["SerialTerm"], "SerialTerm"),
+                                             ("sleepstore", "TRUE", "TRUE", ["SlotsSuffice", "SerialHandlers", "TermOnce", "Final"], "Final")):
+        mc = "MC_MetaCore_" + name
+        fam.write_mc(w, mc, "MetaCore", {}, {"Senders": "{s1, s2}", "Handlers": "{h1, h2, h3}", "MayFail": mayfail, "Mut_SleepStore": mut}, invariants=invs, spec="Spec")
+        r = vlib.run_tlc(w, mc + ".tla", mc + ".cfg", workers=4, timeout=300)
+        viol = re.search(r'Invariant (\w+) is violated', r.out)
+        got = viol.group(1) if viol else None
+        if not viol and r.rc != 0:
+            raise vlib.Infra("MetaCore %s: TLC failed: %s" % (name, r.error or r.out[-600:]))
+        if got != expect:
+            raise vlib.Infra("MetaCore %s: %s, expected %s" % (name, "violates " + got if got else "holds", expect or "to hold"))
+        st += r.distinct; tr += r.generated
+    sc = meta_scenarios(tier, rng)
+    inp = os.path.join(w, "meta_in.json"); out = os.path.join(w, "meta_trace.ndjson")
+    json.dump({"scenarios": sc}, open(inp, "w"))
+    rc, so, se, to = vlib.run_vh(vh, ["meta", "-in", inp, "-out", out], timeout=240)
+    if rc != 0 or to:
+        if vlib.crashed_in_repo(se):
+            res["violations"].append({"clause": "NoCrash", "plan": "meta", "at_event": 0, "stderr": se[-3000:]})
+            return res
+        raise vlib.Infra("meta harness failed rc=%s: %s" % (rc, (se or so)[-1200:]))
+    lines = open(out).read().splitlines()
+    parked = sum(1 for x in lines if json.loads(x)["parked"])
+    fam.write_mc(w, "MC_MetaObsT", "MetaObs", {}, {"TraceFile": '"meta_trace.ndjson"', "Checks": fam.tla_set(META_CLAUSES[prop])}, constraint="HWM", postcondition="TraceAccepted")
+    r = vlib.run_tlc(w, "MC_MetaObsT.tla", "MC_MetaObsT.cfg", workers=1, timeout=1200)
+    if re.search(r'TRACE_REJECTED_AT_LINE', r.out):
+        raise vlib.Infra("MetaObs.tla could not consume the trace: %s" % r.out[-800:])
+    hits = [(m.group(1), int(m.group(2))) for m in re.finditer(r'"CLAUSE_VIOLATED", "(\w+)", "LINE", (\d+)', r.out)]
+    if r.rc != 0 and not hits:
+        raise vlib.Infra("MetaObs validation failed: %s" % (r.error or r.out[-1200:]))
+    known = {f["id"]: f for f in vlib.load_known()}
+    for clause, line in hits:
+        if clause not in META_CLAUSES[prop]:
+            continue
+        e = json.loads(lines[line - 1])
+        if clause == "SerialTerm" and known.get("P15", {}).get("status") == "open":
+            res["known"].append(e["s"]); continue
+        res["violations"].append({"clause": clause, "plan": "meta scenario %s" % json.dumps(e["s"]), "at_event": 0, "scenario": e["s"], "events": e["events"]})
+    res["u1"] = {"distinct": st + r.distinct, "generated": tr + r.generated}
+    res["obs"] = {"executions": len(sc) - len({json.dumps(v["scenario"]) for v in res["violations"]}), "accepted": True}
+    res["harness"] = {"plans": len(sc), "steps": sum(len(json.loads(x)["events"]) for x in lines), "stalls": 0, "parked": parked}
+    return res
+
+
 def main(prop, tier):
     t0 = time.time()
     seed = vlib.seed()
@@ -251,6 +339,8 @@ def main(prop, tier):
                 results.append(f.result())
         if prop in ORDER_CLAUSES:
             results.append(run_order(prop, tier, w, vh, seed))
+        if prop in META_CLAUSES:
+            results.append(run_meta(prop, tier, w, vh, seed))
         # the high-volume mode wants the cores for itself: run it after the controlled replays
         results.append(run_hammer(prop, tier, w, vh, 0, 0))
         if tier == "thorough" or prop == "C02":
@@ -301,6 +391,9 @@ def main(prop, tier):
             path = vlib.save_replay(prop, "%s_%s" % (scn, v["clause"]), v)
             print("VIOLATION property=%s replay=%s" % (prop, path))
             print("  clause %s violated by the real code in scenario %s plan %s at event %s" % (v["clause"], scn, v["plan"], v["at_event"]))
+        for r in results:
+            if r.get("known"):
+                print("KNOWN-FINDING: property=%s P15 meta-process: when Start() returns while a handler goroutine is inside a callback, Terminate runs concurrently with it (%d scenario(s), e.g. %s)" % (prop, len(r["known"]), json.dumps(r["known"][0])[:200]))
         if drift:
             print("note: %d scenario trace(s) were not behaviours of the Core spec (model drift, not a violation): first at %s" % (len(drift), json.dumps(drift[0])[:400]))
         print("%s %s: %d model states, %d executions validated (%d accepted by the Core spec), %d violations, %.0fs" %
